@@ -53,3 +53,11 @@ pub assume_specification<T>[Option::<T>::or](a: Option<T>, b: Option<T>) -> (r: 
     ensures a is Some ==> r == a, a is None ==> r == b;
 pub assume_specification<T, U>[Option::<T>::and](a: Option<T>, b: Option<U>) -> (r: Option<U>)
     ensures a is Some ==> r == b, a is None ==> r is None;
+
+// Iterator::find_map over a slice iterator: a Some result is one the closure produced for some element (nothing is promised
+// about which one, or about None) - enough for an edit that reaches for it to be judged by the caller's contract
+pub assume_specification<'a, T, B, F: FnMut(&'a T) -> Option<B>>[ <core::slice::Iter<'a, T> as Iterator>::find_map ](it: &mut core::slice::Iter<'a, T>, f: F) -> (r: Option<B>)
+    where core::slice::Iter<'a, T>: Sized,
+    requires forall|x: &'a T| call_requires(f, (x,)),
+    ensures r is Some ==> exists|x: &'a T| call_ensures(f, (x,), r),
+;
